@@ -37,6 +37,42 @@ def erase(toks):
     return [t for t in toks if t[0] != 'ann']
 
 
+def _closes_if_block(toks, i):
+    """True iff toks[i] is the `}` of a block whose header (scanned backwards to the previous `;` `{` `}` at the same
+    nesting depth) contains the keyword `if`."""
+    if i < 0 or i >= len(toks) or toks[i] != ('p', '}'):
+        return False
+    d = 0
+    j = i
+    while j >= 0:
+        k, t = toks[j]
+        if k == 'p' and t == '}':
+            d += 1
+        elif k == 'p' and t == '{':
+            d -= 1
+            if d == 0:
+                break
+        j -= 1
+    if j < 0:
+        return False
+    d = 0
+    j -= 1
+    while j >= 0:
+        k, t = toks[j]
+        if k == 'p' and t in (')', ']'):
+            d += 1
+        elif k == 'p' and t in ('(', '['):
+            if d == 0:
+                return False
+            d -= 1
+        elif d == 0 and k == 'p' and t in (';', '{', '}'):
+            return False
+        elif d == 0 and k == 'id' and t == 'if':
+            return True
+        j -= 1
+    return False
+
+
 def sync(atoks, new_real):
     """Carry the annotation blocks of `atoks` over to the token stream `new_real`."""
     old_real = erase(atoks)
@@ -80,6 +116,18 @@ def sync(atoks, new_real):
             return 'lost', None, changes
         else:
             return 'lost', None, changes
+        # rule T2 (logged): a block that sat INSIDE the item (in front of its final `}`) stays inside it.  When a code
+        # change removes a nested block, difflib may pair the item's new final `}` with the OLD inner `}`, which would
+        # put a trailing proof block behind the end of the function (a syntax error, exit-2 class).
+        if q >= len(new_real) and p < len(old_real) and new_real and new_real[-1] == ('p', '}'):
+            q = len(new_real) - 1
+            changes.append(('anchor-clamped-into-item', [], [new_real[-1]]))
+        # rule T3 (logged): a ghost `else { .. }` block is only meaningful directly behind the `}` of an `if` block; when
+        # the `if` vanished (special case removed by a code change) the block is dropped -- its proof steps belonged to a
+        # branch that no longer exists; the obligations of the remaining code are unchanged.
+        if re.match(r'\s*(\[[A-Za-z0-9_, !]+\])?\s*else\b', t[1]) and not _closes_if_block(new_real, q - 1):
+            changes.append(('drop-else-block-without-if', [('ann', ' '.join(t[1].split())[:120])], []))
+            continue
         placed.setdefault(q, []).append(t)
     out = []
     for j, t in enumerate(new_real):
